@@ -17,6 +17,7 @@ import CV.Drv.Stream
 import CV.Drv.Node
 import CV.Drv.Http14
 import CV.Drv.Conn
+import CV.Drv.ConnAccept
 import CV.Drv.ClassTable
 import CV.Drv.NodeTwo
 import CV.Drv.HttpLex
@@ -35,7 +36,7 @@ def machines : List (String × Machine) :=
     ("staticpath", staticPathMachine), ("ranges", rangesMachine),
     ("auth", C20.authMachine), ("session", C20.sessionMachine), ("vhost", C20.vhostMachine),
     ("httpresp", httprespMachine), ("httprespfail", httprespfailMachine), ("ws", wsMachine), ("wse", wseMachine),
-    ("http", httpMachine), ("poller", pollerMachine), ("wake", wakeMachine), ("stream", streamMachine), ("node", nodeMachine), ("node2", node2Machine), ("http14", http14Machine), ("conn", C12.connMachine),
+    ("http", httpMachine), ("poller", pollerMachine), ("wake", wakeMachine), ("stream", streamMachine), ("node", nodeMachine), ("node2", node2Machine), ("http14", http14Machine), ("conn", C12.connMachine), ("connaccept", C12A.connAcceptMachine),
     ("classtable", CT.classTableMachine), ("httplex", httplexMachine), ("httpclient", httpclientMachine), ("httppipe", httppipeMachine), ("valuetree", valuetreeMachine) ]
 
 def main (args : List String) : IO UInt32 := do
